@@ -8,6 +8,10 @@ use crate::model::pipeline::*;
 pub struct C03Check;
 pub static C03: C03Check = C03Check;
 
+pub const LONG_TOKEN_KINDS: &[&str] = &["text", "bytes", "identifier", "symbol", "annotation", "number-then-letter"];
+/// `T` is replaced by the token
+pub const LONG_TOKEN_CONTEXTS: &[&str] = &["T", "5 T", "5T", "T 5", "T5", "( T", "T )", ") T", "+ T +", "T T", "{ T ]", "[ T", "T ;; T", "5 + T 6 +", "T . T ~~ ~~"];
+
 /// what escape processing looks at: backslash, the escape letters, braces, hex digits that reach the surrogate range and
 /// the ends of the code space, a quote
 pub const ESCAPE_ALPHABET: &[&str] = &["\\", "u", "{", "}", "D", "8", "0", "F", "n", "\""];
@@ -181,7 +185,7 @@ impl Check for C03Check {
     fn rule(&self) -> String {
         format!(
             "Phase class-sequences: every sequence of up to L token classes ({} classes, one per parser token class incl. brackets, separators, `;;`, annotations; L=4 quick, 5 thorough) x 3 separators (none, space, annotation), in size order; \
-             literal-strings: every string of length <= 6 (quick) / 7 (thorough) over the characters single quote, double quote, 1, 0, space, é, backslash, a, underscore (all literal shapes incl. multi-byte content in every quote form and radix-like numbers); escape-strings: every body of up to 6 (7) items over backslash, u, n, braces, the hex digits D 8 0 F and a quote, as a text and as a byte-list literal; token-soups and char-soups: random sequences of up to 400 tokens / 300 characters (control characters, quotes, backslash, CR, NUL, multi-byte) from a proptest tape; scaling: {} input families (deep nesting, long chains, long literals, unbalanced brackets) at doubling sizes. \
+             literal-strings: every string of length <= 6 (quick) / 7 (thorough) over the characters single quote, double quote, 1, 0, space, é, backslash, a, underscore (all literal shapes incl. multi-byte content in every quote form and radix-like numbers); long-tokens: a text, byte list, identifier, symbol, annotation or digit run of 0..47 ASCII characters followed by 2-, 4- and 3-byte characters, in 15 well-formed and malformed surroundings; escape-strings: every body of up to 6 (7) items over backslash, u, n, braces, the hex digits D 8 0 F and a quote, as a text and as a byte-list literal; token-soups and char-soups: random sequences of up to 400 tokens / 300 characters (control characters, quotes, backslash, CR, NUL, multi-byte) from a proptest tape; scaling: {} input families (deep nesting, long chains, long literals, unbalanced brackets) at doubling sizes. \
              Oracle: lex, parse and build (into SimpleGarnishData and BasicGarnishData) each return Ok or Err: no panic (catch_unwind), no abort or hang (worker watchdog, 5 s per case; 60 s for scaling cases), the scaling families (n up to 16384; several families are quadratic: 8 s of CPU at n = 16384, which is why the sizes stop there) must finish inside a 30 s watchdog  and run on a thread with a 192 KiB stack, so that stack use growing with nesting depth or chain length overflows and aborts the worker. \
              Non-trivial = the input lexes (reaches parse); distinct = distinct input strings.",
             TOKEN_CLASSES.len(),
@@ -204,6 +208,7 @@ impl Check for C03Check {
             Phase::exhaustive("scaling", (FAMILIES.len() * Self::sizes(tier).len()) as u64).with_chunk(1).with_deadline_ms(30_000),
             Phase::exhaustive("statement-blocks", block_string_count(tier.pick(7, 8))).with_chunk(16384),
             Phase::exhaustive("repetition", repetition_corpus().len() as u64).with_chunk(16),
+            Phase::exhaustive("long-tokens", (LONG_TOKEN_KINDS.len() * LONG_TOKEN_CONTEXTS.len() * 48) as u64).with_chunk(256),
             Phase::exhaustive("escape-strings", alphabet_count(ESCAPE_ALPHABET.len() as u64, tier.pick(6, 7)) * 2).with_chunk(16384),
         ]
     }
@@ -275,6 +280,27 @@ impl Check for C03Check {
                 classify(&out, &s, ctx);
             }
             (7, Input::Index(i)) => {
+                // one long token holding multi-byte characters, in well-formed and malformed surroundings: whatever the
+                // stages do with the token's text (messages, excerpts, slicing) must not depend on where a character ends
+                let len = (*i % 48) as usize;
+                let r = *i / 48;
+                let kind = LONG_TOKEN_KINDS[(r % LONG_TOKEN_KINDS.len() as u64) as usize];
+                let context = LONG_TOKEN_CONTEXTS[(r / LONG_TOKEN_KINDS.len() as u64) as usize];
+                let body = format!("{}é😀漢é", "a".repeat(len));
+                let token = match kind {
+                    "text" => format!("\"{}\"", body),
+                    "bytes" => format!("'{}'", body),
+                    "identifier" => body.clone(),
+                    "symbol" => format!(":{}", body),
+                    "annotation" => format!("@{}", body),
+                    _ => format!("{}{}", "7".repeat(len + 1), "é"),
+                };
+                let s = context.replace("T", &token);
+                ctx.render(|| format!("{:?}", s));
+                let out = run_pipeline(&s, ctx);
+                classify(&out, &s, ctx);
+            }
+            (8, Input::Index(i)) => {
                 let s = escape_string(*i, tier.pick(6, 7));
                 ctx.render(|| format!("{:?}", s));
                 let out = run_pipeline(&s, ctx);
